@@ -871,6 +871,7 @@ def check_caches(run, modules, rule, functions=None, prog=None, zero_is_a_value=
         if functions is None:
             nstores += memoised_file_readers(run, rule, mi)
             nstores += shared_default_results(run, rule, mi)
+            nstores += persistent_scratch_buffers(run, rule, mi)
             nstores += sibling_defaults(run, rule, mi)
         for cname, cnode in mi.classes.items():
             _class_level(run, rule, mi, cname, cnode)
@@ -966,6 +967,15 @@ def check_caches(run, modules, rule, functions=None, prog=None, zero_is_a_value=
                          "keeps a value computed from it in the same call (%s): when the caller later writes into that buffer the kept array "
                          "changes and the value derived from it does not, so the object's state matches no assignment that was ever made"
                          % (name, loc_, par_, norm(d_)[:60]))
+            from .rules._purity import state_rebuilt_while_validating
+            for w_, fld_, g_ in state_rebuilt_while_validating(fn):
+                nstores += 1
+                run.subject(rule)
+                run.fail(rule, '%s|%s|rebuilt-while-validating:%s' % (mi.name, name, fld_), mi.relpath, w_.lineno,
+                         "%s has already reset / refilled self.%s (%s) when it rejects an element of its argument (if %s: raise, line %d): after the "
+                         "exception the object has lost its old content, holds only the elements accepted so far, and the notification after the "
+                         "loop never ran, so nothing that depends on it learns of the change"
+                         % (name, fld_, norm(w_)[:40], norm(g_.test)[:50], g_.lineno))
             from .rules._purity import guards_contradicting_their_message
             for g_, why_ in guards_contradicting_their_message(fn):
                 nstores += 1
@@ -975,7 +985,7 @@ def check_caches(run, modules, rule, functions=None, prog=None, zero_is_a_value=
                          "invalid input accepted" % (name, norm(g_.test)[:60], why_))
             from .rules._purity import falsy_numeric_default
             # only where 0 is a meaningful argument (bounds, coordinates of the function wrappers); elsewhere 'count or default' treats 0 as 'unset' on purpose
-            for n_, x_ in (falsy_numeric_default(fn) if zero_is_a_value else ()):
+            for n_, x_ in (falsy_numeric_default(fn) if (zero_is_a_value is True or (zero_is_a_value and mi.name in zero_is_a_value)) else ()):
                 nstores += 1
                 run.subject(rule)
                 run.fail(rule, '%s|%s|falsy-default:%s' % (mi.name, name, x_), mi.relpath, n_.lineno,
@@ -1082,3 +1092,62 @@ def check_caches(run, modules, rule, functions=None, prog=None, zero_is_a_value=
             run.undecided(rule, 'memo rules', 'class graph too deep')
     run.subject(rule)
     run.ok(rule, 'shared containers', '%d containers, %d keyed stores from functions' % (ncont, nstores), sample=(nstores == 0))
+
+
+def persistent_scratch_buffers(run, rule, mi):
+    """A helper that hands out views of module-level arrays it keeps between calls (`global buf`; reallocated only when too small) gives
+    its caller memory that still holds the previous call's numbers.  That is invisible only if the caller overwrites every element before
+    reading; a caller that fills just a leading / trailing part (`d[0:m] = b`) and then uses the whole array computes with the rest of an
+    earlier problem: the result depends on what was solved before."""
+    n = 0
+    pools = {}
+    for name, fn in mi.functions.items():
+        g = {x for st in ast.walk(fn) if isinstance(st, ast.Global) for x in st.names}
+        g = {x for x in g if x in mi.assigns and isinstance(mi.assigns[x], ast.Call) and (dotted(mi.assigns[x].func) or '').rsplit('.', 1)[-1] in ('zeros', 'empty', 'ones')}
+        if not g:
+            continue
+        rebinds = {t.id for st in ast.walk(fn) if isinstance(st, ast.Assign) for t in st.targets if isinstance(t, ast.Name) and t.id in g}
+        rets = [r.value for r in ast.walk(fn) if isinstance(r, ast.Return) and r.value is not None]
+        handed = []
+        for r in rets:
+            for e in (r.elts if isinstance(r, ast.Tuple) else [r]):
+                roots = {x.id for x in ast.walk(e) if isinstance(x, ast.Name) and x.id in g}
+                handed.append(bool(roots) and not any(isinstance(c, ast.Call) and (dotted(c.func) or '').rsplit('.', 1)[-1] in ('copy', 'array', 'zeros_like') for c in ast.walk(e)))
+        if rebinds and handed and any(handed):
+            pools[name] = handed
+    if not pools:
+        return 0
+    for name, fn in mi.functions.items():
+        for st in ast.walk(fn):
+            if not (isinstance(st, ast.Assign) and isinstance(st.value, ast.Call) and dotted(st.value.func) in pools):
+                continue
+            handed = pools[dotted(st.value.func)]
+            tg = st.targets[0]
+            names = [e.id if isinstance(e, ast.Name) else None for e in tg.elts] if isinstance(tg, ast.Tuple) else [tg.id if isinstance(tg, ast.Name) else None]
+            for nm, h in zip(names, handed):
+                if not (nm and h):
+                    continue
+                n += 1
+                run.subject(rule)
+                lo_open = hi_open = False
+                for w in ast.walk(fn):
+                    if isinstance(w, ast.Assign) and isinstance(w.targets[0], ast.Subscript) and isinstance(w.targets[0].value, ast.Name) and w.targets[0].value.id == nm:
+                        sl = w.targets[0].slice
+                        first = sl.elts[0] if isinstance(sl, ast.Tuple) else sl
+                        if isinstance(first, ast.Slice):
+                            if first.lower is None or norm(first.lower) == '0':
+                                lo_open = True
+                            if first.upper is None:
+                                hi_open = True
+                        elif isinstance(first, ast.Constant) and first.value is Ellipsis:
+                            lo_open = hi_open = True
+                    elif isinstance(w, ast.Call) and isinstance(w.func, ast.Attribute) and w.func.attr == 'fill' and isinstance(w.func.value, ast.Name) and w.func.value.id == nm:
+                        lo_open = hi_open = True
+                if lo_open and hi_open:
+                    run.ok(rule, '%s scratch %s' % (name, nm), 'overwritten from the first to the last row before use', sample=False)
+                else:
+                    run.fail(rule, '%s|%s|persistent-scratch:%s' % (mi.name, name, nm), mi.relpath, st.lineno,
+                             "%s takes '%s' from %s(), which hands out a view of a module-level array kept between calls, and overwrites only part "
+                             "of it before use: the remaining elements still hold the numbers of an earlier call (another problem size, another "
+                             "right-hand side), so the result depends on what was computed before" % (name, nm, dotted(st.value.func)))
+    return n
